@@ -179,6 +179,7 @@ def run(ctx):
     ctx.cov["corr_disagreements"] = bad
     match_correspondence(ctx, [p for p, u in pats if u is None])
     cap_family(ctx)
+    reuse_family(ctx, [p for p, u in pats if u is None and anchors_only_at_ends(p)])
     schema_path(ctx, [p for p, u in pats if u is None and anchors_only_at_ends(p)])
     for p, u in pats[:6]:
         ctx.sample({"pattern": p, "unsupported": u})
@@ -213,6 +214,56 @@ def cap_family(ctx):
                             ctx.violation("generated string does not match the entire pattern", pattern=pat, max_repeat=cap,
                                           generated=out[:200], length=len(out), python_seed=1000 * cap + 10 * n + k)
                             break
+    finally:
+        _random.setstate(st)
+
+
+def reuse_family(ctx, patterns):
+    """ONE long-lived generator (and the module-level one behind fake()) asked for many patterns in a row: supported
+    ones interleaved with refused ones whose unsupported construct sits at the start, in the middle or at the very end
+    (so that a refusal interrupts a half-built string), nested in groups / repeats / branches. Every string returned
+    must match its own entire pattern, and every refusal must be a refusal again"""
+    import random as _random
+    from d42 import fake, schema
+    from d42.generation import Random, RegexGenerator
+    refused = [r"\s", r"[a-z]{3}\s", r"id-\d+(?=;)", r"(a)b\1", r"ab\S", r"x(?<=x)y", r"(?>ab)c", r"a*+b", r"(ab|c\D)z",
+               r"(?:xy){2}\W", r"q{3}(?!r)", r"[0-9]{2}[\s]", r"(?P<n>ab)(?P=n)", r"abc(?=d)", r"a(b(c\s))", r"\w+\s\w+"]
+    good = [r"^\d{4}$", r"[ab]{3}", r"(?:ab|cd)e", r"x{2,4}y", r"^\w-\d$", r"a?b+c*", r"[^a-y]{2}", r"(p|q)(r|s)"]
+    good += [p for p in patterns[:ctx.n(10, 60)] if len(p) < 60]
+    st = _random.getstate()
+    try:
+        _random.seed(90210)
+        shared = RegexGenerator(Random())
+        runs = [("one RegexGenerator instance", shared.generate),
+                ("fake(schema.str.regex(p))", lambda p: fake(schema.str.regex(p)))]
+        for label, gen in runs:
+            for rnd_round in range(ctx.n(2, 6)):
+                seq = []
+                for g in good:
+                    seq.append(ctx.rnd.choice(refused))
+                    seq.append(g)
+                    if ctx.rnd.random() < .3:
+                        seq.append(ctx.rnd.choice(good))
+                prev = None
+                for p in seq:
+                    ctx.count("reuse_family_calls")
+                    try:
+                        out = gen(p)
+                    except Exception as e:  # noqa: BLE001
+                        if p in good[:8]:
+                            ctx.violation("generator raised %s on a supported pattern after other patterns were processed"
+                                          % type(e).__name__, pattern=p, previous=prev, via=label, exception=repr(e))
+                        prev = p
+                        continue
+                    try:
+                        ok = len(out) > 3000 or fullmatch(p, out)
+                    except _Timeout:
+                        ok = True
+                    if not ok:
+                        ctx.violation("generated string does not match the entire pattern (the generator had processed "
+                                      "other patterns before)", pattern=p, previous=prev, generated=out[:200], via=label)
+                        return
+                    prev = p
     finally:
         _random.setstate(st)
 
